@@ -11,10 +11,13 @@ import (
 	"io"
 	nethttp "net/http"
 	"net/http/httptest"
+	"sync"
 	"testing"
 	"time"
 
+	client2 "github.com/drand/drand/v2/common/client"
 	"github.com/drand/drand/v2/crypto"
+	"github.com/drand/drand/v2/protobuf/drand"
 )
 
 func c16Ref(t, genesis int64, period time.Duration) uint64 {
@@ -22,6 +25,28 @@ func c16Ref(t, genesis int64, period time.Duration) uint64 {
 		return 0
 	}
 	return uint64((t-genesis)/int64(period/time.Second)) + 1
+}
+
+// c16Lenient is an upstream that answers whatever round it is asked for (as a misbehaving or merely generous relay
+// would): the handler must refuse rounds that are not due — or not schedulable at all — before asking anybody.
+type c16Lenient struct {
+	*c01Client
+	mu          sync.Mutex
+	askedFuture []uint64
+}
+
+func (c *c16Lenient) Get(ctx context.Context, round uint64) (client2.Result, error) {
+	c.c01Client.mu.Lock()
+	head := c.c01Client.head
+	c.c01Client.mu.Unlock()
+	if round > head {
+		c.mu.Lock()
+		c.askedFuture = append(c.askedFuture, round)
+		c.mu.Unlock()
+		b := c.ch.beacons[1]
+		return &drand.PublicRandResponse{Round: round, Signature: b.Signature, PreviousSignature: b.PreviousSignature, Randomness: b.Randomness}, nil
+	}
+	return c.c01Client.Get(ctx, round)
 }
 
 func TestVF_C16_HTTP(t *testing.T) {
@@ -40,7 +65,7 @@ func TestVF_C16_HTTP(t *testing.T) {
 		genesis := now - int64(rounds-1)*ps - int64(rng.Intn(int(ps)))
 		ch := c01MakeChain(rng, sch, rounds+2, genesis)
 		ch.info.Period = period
-		cl := &c01Client{ch: ch}
+		cl := &c16Lenient{c01Client: &c01Client{ch: ch}}
 		ctx, cancel := context.WithCancel(context.Background())
 		h, err := New(ctx, "vf")
 		if err != nil {
@@ -100,6 +125,23 @@ func TestVF_C16_HTTP(t *testing.T) {
 				run.Violation("C16/http-health/expected-round-not-current",
 					fmt.Sprintf("period %ds genesis %d: /health says expected=%d, the round current during the request (%d..%d) is %d..%d", ps, genesis, exp, t0, t1, lo, hi), info)
 			}
+		}
+		// rounds that are not due for centuries, or cannot be scheduled at all: never a 200, never forwarded upstream
+		for _, r := range []uint64{cur + 3, cur + 1000, 1 << 33, 9223372038, 1 << 40, 1<<50 + uint64(rng.Intn(1000)), 1 << 60, 1 << 62, 1<<63 - 1, 1 << 63, ^uint64(0) >> 3, ^uint64(0) - 1, ^uint64(0)} {
+			st, _, _, _, _ := get(fmt.Sprintf("/%s/public/%d", hash, r))
+			run.Count("far_future_rounds_requested", 1)
+			if st == nethttp.StatusOK {
+				run.Violation("C16/http-public/round-beyond-the-schedule-answered-200",
+					fmt.Sprintf("period %ds genesis %d, current round %d: GET /public/%d answered 200", ps, genesis, cur, r), info)
+				break
+			}
+		}
+		cl.mu.Lock()
+		asked := append([]uint64(nil), cl.askedFuture...)
+		cl.mu.Unlock()
+		if len(asked) > 0 {
+			run.Violation("C16/http-public/round-beyond-the-schedule-forwarded-upstream",
+				fmt.Sprintf("period %ds genesis %d, current round %d: the handler asked its upstream for round(s) %v, none of which is due", ps, genesis, cur, asked), info)
 		}
 		srv.Close()
 		cancel()
